@@ -503,6 +503,18 @@ SubprocessResult run_process(const vector<string>& cmd, const string* stdin_data
 
   Subprocess sp(cmd, -1, -1, -1, cwd, env);
 
+  // Subprocess does not close its pipe ends; whichever of them are still open
+  // when this function returns or throws are closed here
+  struct PipeCloser {
+    set<int> fds;
+    ~PipeCloser() {
+      for (int fd : this->fds) {
+        close(fd);
+      }
+    }
+  } open_pipe_fds;
+  open_pipe_fds.fds = {sp.stdin_fd(), sp.stdout_fd(), sp.stderr_fd()};
+
   make_fd_nonblocking(sp.stdin_fd());
   make_fd_nonblocking(sp.stdout_fd());
   make_fd_nonblocking(sp.stderr_fd());
@@ -521,6 +533,7 @@ SubprocessResult run_process(const vector<string>& cmd, const string* stdin_data
     p.add(sp.stdin_fd(), POLLOUT);
   } else {
     close(sp.stdin_fd());
+    open_pipe_fds.fds.erase(sp.stdin_fd());
   }
   read_fd_to_buffer.emplace(sp.stdout_fd(), &ret.stdout_contents);
   p.add(sp.stdout_fd(), POLLIN);
@@ -546,6 +559,7 @@ SubprocessResult run_process(const vector<string>& cmd, const string* stdin_data
         } else { // bytes_read == 0; usually means the pipe is broken
           buf->resize(read_offset);
           p.remove(pfd.first, true);
+          open_pipe_fds.fds.erase(pfd.first);
           read_fd_to_buffer.erase(pfd.first);
         }
       }
@@ -558,6 +572,7 @@ SubprocessResult run_process(const vector<string>& cmd, const string* stdin_data
           buf.offset += bytes_written;
           if (buf.offset == buf.buf->size()) {
             p.remove(sp.stdin_fd(), true);
+            open_pipe_fds.fds.erase(pfd.first);
             write_fd_to_buffer.erase(pfd.first);
           }
         } else if (bytes_written < 0) {
@@ -567,6 +582,7 @@ SubprocessResult run_process(const vector<string>& cmd, const string* stdin_data
           throw runtime_error("write failed: " + string_for_error(errno));
         } else { // bytes_written == 0; usually means the pipe is broken
           p.remove(pfd.first, true);
+          open_pipe_fds.fds.erase(pfd.first);
           write_fd_to_buffer.erase(pfd.first);
         }
       }
